@@ -449,6 +449,12 @@ func senGen(args []string) {
 		o.Sort = true
 		emit(dc.tree, o, dc.p, "deep")
 	}
+	// size classes of the fixed tables (key / value / column lengths around 64, 128, 256; Width 1..1000; Align on / off)
+	for _, sc := range sizeCases(quick) {
+		o := sc.o
+		o.Sort = true
+		emit(sc.tree, o, sc.p, "size")
+	}
 	// (4) numbers
 	for _, i := range append([]int64{0}, intLeaves...) {
 		for ci, t := range []M{aInt(i), aArr(aInt(i), aInt(i)), aObj("k", aInt(i))} {
